@@ -15,6 +15,7 @@ import (
 	"runtime"
 	"runtime/debug"
 	"sort"
+	"strconv"
 	"strings"
 	"time"
 
@@ -307,6 +308,33 @@ func doReplay(file string) {
 				failed = true
 			}
 		}
+	case 0: // a case whose child crashed or timed out: re-run the whole case in this process
+		var r struct {
+			Case caseDef `json:"case"`
+		}
+		json.Unmarshal(doc.Replay, &r)
+		tier := "quick"
+		if r.Case.Depth > 3 {
+			tier = "thorough"
+		}
+		cs := &childState{tier: tier, u: newUniverse(tier), ops: map[string][]opDef{}, confirmed: map[string]bool{}}
+		t0 := time.Now()
+		res := cs.runCase(r.Case)
+		fmt.Printf("case completed in %.1fs: %d evaluations, %d steps, %d violations (known findings included), %d non-reproducible\n",
+			time.Since(t0).Seconds(), res.Evals, res.Steps, len(res.Viols), len(res.Flaky))
+		sigs := map[string]int{}
+		for _, raw := range res.Viols {
+			var h struct {
+				Sig string `json:"sig"`
+			}
+			json.Unmarshal(raw, &h)
+			sigs[h.Sig]++
+		}
+		for k, v := range sigs {
+			fmt.Printf("  %6d x %s\n", v, k)
+		}
+		fmt.Println("replay: the case terminates in-process (a crash or watchdog expiry of the child is not reproduced)")
+		os.Exit(0)
 	default:
 		fw.Fatalf("replay: unknown part %d", head.Part)
 	}
@@ -346,7 +374,52 @@ func main() {
 	var p1Evals, p2Evals, steps, na, reads, engcmp, crashes int64
 	var flaky []string
 	stopped := false
-	done := fw.Supervise(fw.SupOpts{N: len(cases), Workers: runtime.NumCPU(), CaseTimeout: 15 * time.Minute, UlimitVKB: 0, Mode: "c04",
+	var retry []int
+	absorb := func(cd caseDef, r caseResult) {
+		flaky = append(flaky, r.Flaky...)
+		for k, v := range r.Outcomes {
+			outcomes.AddN(k, v)
+		}
+		if cd.Part == 2 {
+			p2Evals += r.Evals
+		} else {
+			p1Evals += r.Evals
+		}
+		steps += r.Steps
+		na += r.NA
+		reads += r.Reads
+		engcmp += r.EngCmp
+		for _, h := range r.States {
+			states[h] = struct{}{}
+		}
+		for _, h := range r.Trans {
+			trans[h] = struct{}{}
+		}
+		for _, h := range r.Pairs {
+			pairs[h] = struct{}{}
+		}
+		if r.Sample != nil {
+			samples.Add(r.Sample)
+		}
+		for _, raw := range r.Viols {
+			var head struct {
+				Sig  string `json:"sig"`
+				What string `json:"what"`
+			}
+			json.Unmarshal(raw, &head)
+			var body map[string]any
+			json.Unmarshal(raw, &body)
+			delete(body, "sig")
+			delete(body, "what")
+			body["part"] = cd.Part
+			run.Violation(head.Sig, head.What, body)
+		}
+	}
+	caseTimeout := 15 * time.Minute
+	if ms, err := strconv.Atoi(os.Getenv("VERIF_C04_CASE_TIMEOUT_MS")); err == nil && ms > 0 { // test aid for the watchdog path
+		caseTimeout = time.Duration(ms) * time.Millisecond
+	}
+	done := fw.Supervise(fw.SupOpts{N: len(cases), Workers: runtime.NumCPU(), CaseTimeout: caseTimeout, UlimitVKB: 0, Mode: "c04",
 		Stop: func() bool {
 			if run.Expired() {
 				stopped = true
@@ -356,6 +429,12 @@ func main() {
 		}},
 		func(i int, res string, crash *fw.Crash) {
 			cd := cases[i]
+			if crash != nil && crash.Kind == "timeout" {
+				// A watchdog expiry is not a verdict of this property (a case needs seconds of CPU; under heavy
+				// machine load the child may simply not have been scheduled): the case is re-run below, in-process.
+				retry = append(retry, i)
+				return
+			}
 			if crash != nil {
 				crashes++
 				desc := fmt.Sprintf("part %d", cd.Part)
@@ -365,7 +444,7 @@ func main() {
 					desc = fmt.Sprintf("words of %s starting with %s %s", cd.Cfg, ops[cd.Prefix[0]].Name, ops[cd.Prefix[1]].Name)
 					sig = "crash:p2:" + ops[cd.Prefix[0]].Name + ":" + ops[cd.Prefix[1]].Name
 				}
-				run.Violation(sig, fmt.Sprintf("child process %s while running %s: %s", crash.Kind, desc, fw.FirstLines(crash.Stderr, 6)), map[string]any{"part": 0, "case": cd})
+				run.Violation(sig, fmt.Sprintf("child process crashed while running %s: %s", desc, fw.FirstLines(crash.Stderr, 6)), map[string]any{"part": 0, "case": cd})
 				outcomes.Inc("child-" + crash.Kind)
 				return
 			}
@@ -373,45 +452,16 @@ func main() {
 			if err := json.Unmarshal([]byte(res), &r); err != nil {
 				fw.Fatalf("case %d: bad child result: %v", i, err)
 			}
-			flaky = append(flaky, r.Flaky...)
-			for k, v := range r.Outcomes {
-				outcomes.AddN(k, v)
-			}
-			if cd.Part == 2 {
-				p2Evals += r.Evals
-			} else {
-				p1Evals += r.Evals
-			}
-			steps += r.Steps
-			na += r.NA
-			reads += r.Reads
-			engcmp += r.EngCmp
-			for _, h := range r.States {
-				states[h] = struct{}{}
-			}
-			for _, h := range r.Trans {
-				trans[h] = struct{}{}
-			}
-			for _, h := range r.Pairs {
-				pairs[h] = struct{}{}
-			}
-			if r.Sample != nil {
-				samples.Add(r.Sample)
-			}
-			for _, raw := range r.Viols {
-				var head struct {
-					Sig  string `json:"sig"`
-					What string `json:"what"`
-				}
-				json.Unmarshal(raw, &head)
-				var body map[string]any
-				json.Unmarshal(raw, &body)
-				delete(body, "sig")
-				delete(body, "what")
-				body["part"] = cd.Part
-				run.Violation(head.Sig, head.What, body)
-			}
+			absorb(cd, r)
 		})
+	if len(retry) > 0 {
+		sort.Ints(retry)
+		cs := &childState{tier: run.Tier, u: u, ops: map[string][]opDef{}, confirmed: map[string]bool{}}
+		for _, i := range retry {
+			absorb(cases[i], cs.runCase(cases[i]))
+		}
+		run.Note("%d cases exceeded the 15 min child watchdog and were re-run in the supervisor process", len(retry))
+	}
 	if f := os.Getenv("VERIF_C04_PARTS"); f != "" {
 		run.Capped("restricted to parts " + f)
 	}
@@ -450,7 +500,7 @@ func main() {
 		Extra: map[string]any{
 			"part1_instantiations": p1Evals, "part1_distinct_type_pairs": len(pairs),
 			"part2_word_executions": p2Evals, "part2_distinct_state_op_pairs": len(trans), "part2_not_applicable_steps": na,
-			"part2_reads_compared_with_model": reads, "part2_engine_lockstep_comparisons": engcmp, "child_crashes": crashes,
+			"part2_reads_compared_with_model": reads, "part2_engine_lockstep_comparisons": engcmp, "child_crashes": crashes, "watchdog_reruns": len(retry),
 			"cases": len(cases), "cases_completed": done,
 		},
 	}, []string{
